@@ -384,6 +384,8 @@ impl<'c, 'ch: 'c> Records<'c, 'ch> {
             record.features.push(feature);
         }
 
+        validate_features(&record.features, record.read_length)?;
+
         record.mapping_quality = self.read_mapping_quality()?;
 
         if record.cram_flags.quality_scores_are_stored_as_array() {
@@ -663,6 +665,53 @@ impl<'c, 'ch: 'c> Records<'c, 'ch> {
             Ok(src)
         }
     }
+}
+
+// Checks that the features are in order and within the read, which is what the sequence, quality
+// scores, and alignment span of a record are calculated from.
+fn validate_features(features: &[Feature<'_>], read_length: usize) -> io::Result<()> {
+    // The next read positions (1-based) of the bases and quality scores, respectively.
+    let mut sequence_position = 1;
+    let mut quality_scores_position = 1;
+
+    for feature in features {
+        let position = usize::from(feature.position());
+
+        let (base_count, quality_score_count) = match feature {
+            Feature::Bases { bases, .. } => (Some(bases.len()), 0),
+            Feature::Scores { quality_scores, .. } => (None, quality_scores.len()),
+            Feature::ReadBase { .. } => (Some(1), 1),
+            Feature::Substitution { .. } => (Some(1), 0),
+            Feature::Insertion { bases, .. } => (Some(bases.len()), 0),
+            Feature::InsertBase { .. } => (Some(1), 0),
+            Feature::QualityScore { .. } => (None, 1),
+            Feature::SoftClip { bases, .. } => (Some(bases.len()), 0),
+            Feature::Deletion { .. }
+            | Feature::ReferenceSkip { .. }
+            | Feature::Padding { .. }
+            | Feature::HardClip { .. } => (Some(0), 0),
+        };
+
+        if let Some(n) = base_count {
+            if position < sequence_position {
+                return Err(invalid_feature_position_error());
+            }
+
+            sequence_position = position + n;
+        }
+
+        quality_scores_position = quality_scores_position.max(position) + quality_score_count;
+
+        if sequence_position > read_length + 1 || quality_scores_position > read_length + 1 {
+            return Err(invalid_feature_position_error());
+        }
+    }
+
+    Ok(())
+}
+
+fn invalid_feature_position_error() -> io::Error {
+    io::Error::new(io::ErrorKind::InvalidData, "invalid feature position")
 }
 
 fn missing_data_series_encoding_error(data_series: DataSeries) -> io::Error {
